@@ -35,8 +35,8 @@ DIMS = {"length": udims.length, "mass": udims.mass, "time": udims.time}
 RDIMS = {"length": rd.length, "mass": rd.mass, "time": rd.time}
 PROBES = ["foo", "kfoo", "foo/s", "foo**2", "Msun", "kMsun" if False else "Msun/foo", "m", "km", "kg", "bar2"]
 ROUTES1 = ["plain", "lut", "cgs"]
-DERIVE = ["fresh", "fresh-lut", "json", "pickle", "deepcopy", "deepcopy-unit", "unitcopy-deep", "from-quantity-copy", "deepcopy-of-default"]
-DERIVE_QUICK = ["fresh", "json", "deepcopy", "deepcopy-unit", "deepcopy-of-default"]
+DERIVE = ["fresh", "fresh-lut", "json", "pickle", "pickle-pair", "deepcopy", "deepcopy-unit", "unitcopy-deep", "from-quantity-copy", "deepcopy-of-default"]
+DERIVE_QUICK = ["fresh", "json", "pickle-pair", "deepcopy", "deepcopy-unit", "deepcopy-of-default"]
 
 
 def events_for(tier):
@@ -96,6 +96,14 @@ def derive(w, route):
     elif route == "pickle":
         q = unyt.unyt_array(np.array([1.0]), "m", registry=r1)
         r2 = pickle.loads(pickle.dumps(q)).units.registry
+    elif route == "pickle-pair":
+        # two objects bound to registry 1 stored by ONE dumps call: each comes back with a registry of its own
+        # (registry 2 and a sibling, registry 3, which no event ever edits)
+        q1 = unyt.unyt_array(np.array([1.0]), "m", registry=r1)
+        q2 = unyt.unyt_quantity(2.0, "km", registry=r1)
+        a, b = pickle.loads(pickle.dumps([q1, q2]))
+        r2 = a.units.registry
+        w.sibling = b.units.registry
     elif route == "deepcopy":
         r2 = copy.deepcopy(r1)
     elif route == "unitcopy-deep":
@@ -171,9 +179,12 @@ def apply_event(w, ev):
         if k == "derive":
             if 2 in w.regs:
                 return "skip"
+            w.sibling = None
             w.regs[2], w.T[2] = derive(w, ev[1])
             w.T0[2] = copy.deepcopy(w.T[2])
             w.route2 = ev[1]
+            if w.sibling is not None and w.sibling is not w.regs[2]:
+                w.regs[3], w.T[3], w.T0[3] = w.sibling, copy.deepcopy(w.T[2]), copy.deepcopy(w.T[2])
             return "ok"
         if k in ("add", "modf", "rem", "unit", "mul", "usys", "names", "conv", "prt", "jrt"):
             i = ev[1]
@@ -527,7 +538,7 @@ def _own_values(w, i, s, before=None):
     r = resolve_ref({}, s)
     if r[0] == "ok":
         vals.add(r[1])
-    if i == 2 and w.route2 not in (None, "fresh", "fresh-lut"):
+    if i in (2, 3) and w.route2 not in (None, "fresh", "fresh-lut"):
         # a copy inherits the memo rows (and their staleness) of the registry it was copied from - up to its birth only
         vals |= _own_values(w, 1, s, before=w.derive_index)
     return vals
